@@ -47,6 +47,8 @@ func (fx *FuncVC) reset() {
 	fx.active = nil
 	fx.depth = 0
 	fx.regions = nil
+	fx.recDefs = nil
+	fx.defAx = nil
 }
 
 // VerifyFunc generates the obligations of one function under contract.
@@ -166,7 +168,13 @@ func (fx *FuncVC) runTop() {
 }
 
 // Query renders the SMT-LIB query of an obligation.
-func (o *Obligation) Query(withModel bool) string {
+func (o *Obligation) Query(withModel bool) string { return o.query(withModel, false) }
+
+// QueryNoDefs is the query without the quantified definitional axioms (used for covers, where
+// the solver cannot build a model of the quantified axioms).
+func (o *Obligation) QueryNoDefs() string { return o.query(false, true) }
+
+func (o *Obligation) query(withModel, dropDefs bool) string {
 	fx := o.fx
 	var b strings.Builder
 	b.WriteString("(set-option :produce-models true)\n(set-logic ALL)\n")
@@ -175,7 +183,10 @@ func (o *Obligation) Query(withModel bool) string {
 		b.WriteByte('\n')
 	}
 	// later declarations may be referenced by earlier assumptions? No: assumptions only use names declared before them.
-	for _, a := range fx.assumps[:o.NAssume] {
+	for i, a := range fx.assumps[:o.NAssume] {
+		if dropDefs && fx.defAx[i] {
+			continue
+		}
 		b.WriteString(a)
 		b.WriteByte('\n')
 	}
